@@ -3,7 +3,7 @@ import json
 from fractions import Fraction
 import numpy as np
 from harness import votelib as V, eliclib as E
-from harness.common import pmap, lean_query, guard, fr, safe_judge
+from harness.common import pmap, lean_query, guard, fr, safe_judge, persist, persist_rule
 from harness.c01 import chunks
 
 LEVEL = "proof"
